@@ -1041,3 +1041,44 @@ func checkHeaderWritersCovered(c *Ctx) {
 }
 
 func relBootstrap() string { return "pkg/upstream/bootstrap" }
+
+// checkWaitingFlagWriters (round 14; C02-R14): the "a query waits for its reply" flag of TraditionalDnsConn is written
+// by the reader when it claims a reply (takeQueueC: Store under the table lock) and by the exchange that arms the
+// waiting-reply deadline (armWaitingResp: CompareAndSwap false -> true), and by nobody else. A third writer — e.g.
+// deleteQueueC "keeping the flag in line with the queue" from the deferred removal of an already answered query —
+// can set the flag behind the back of a query that is queued but has not armed yet: its CompareAndSwap then fails, the
+// waiting-reply deadline is never installed, the reader keeps the idle deadline and closes the healthy connection under
+// a reply that would have arrived in time.
+func checkWaitingFlagWriters(c *Ctx) {
+	T := relTransport + "."
+	allowed := map[string]string{"takeQueueC": "(*sync/atomic.Bool).Store", "armWaitingResp": "(*sync/atomic.Bool).CompareAndSwap"}
+	n := 0
+	for _, f := range c.P.funcsIn(relTransport) {
+		fn := f
+		eachInstr(f, func(in ssa.Instruction) {
+			ci, ok := in.(ssa.CallInstruction)
+			if !ok || len(ci.Common().Args) == 0 {
+				return
+			}
+			cn := callNameCommon(ci.Common())
+			switch cn {
+			case "(*sync/atomic.Bool).Store", "(*sync/atomic.Bool).CompareAndSwap", "(*sync/atomic.Bool).Swap":
+			default:
+				return
+			}
+			if k, _ := fieldKey(ci.Common().Args[0]); k != T+"TraditionalDnsConn.waitingResp" {
+				return
+			}
+			n++
+			top := fn
+			for top.Parent() != nil {
+				top = top.Parent()
+			}
+			c.check(allowed[top.Name()] == cn, "waiting-flag-writer@"+funcName(top), instrPos(in), "the waiting flag is written by the reader's claim and by the arming exchange only",
+				"the waiting-reply flag is also written in "+funcName(top)+" ("+shortName(cn)+"): a query that is queued but has not armed yet finds the flag already set, its CompareAndSwap fails and the waiting-reply deadline is never installed — the idle deadline closes the connection under its reply")
+		})
+	}
+	if n == 0 {
+		c.anchorMissing("writes of TraditionalDnsConn.waitingResp")
+	}
+}
